@@ -316,7 +316,8 @@ Proof.
 Qed.
 Lemma persistable_clean l : l <> [] -> persistable l = true -> clean_line l.
 Proof.
-  intros Hne H. split; [exact Hne|]. unfold persistable in H. rewrite forallb_forall in H.
+  intros Hne H. split; [exact Hne|]. unfold persistable in H. apply andb_true_iff in H as [H _].
+  unfold persistable_ascii in H. rewrite forallb_forall in H.
   apply Forall_forall. intros c Hc. specialize (H c Hc). apply andb_true_iff in H as [A B].
   change persist_comment_char with 35 in A. apply negb_true_iff in A, B. apply N.eqb_neq in A. split; assumption.
 Qed.
